@@ -34,7 +34,7 @@ OPTION_SETS = ['default', 'props', 'sqlr', 'dbmlr', 'all']
 
 
 def bounds(tier):
-    return {'routes': len(ROUTES), 'option_sets': len(OPTION_SETS), 'documents': len(documents()), 'bom': [False, True]}
+    return {'routes': len(ROUTES), 'option_sets': len(OPTION_SETS), 'documents': len(documents()), 'bom': [False, True, 'two marks']}
 
 
 def documents():
@@ -128,7 +128,7 @@ def describe(kind, val, kw):
 def check_case(p, tmp, docname, text, needs_props, bom, optset):
     if needs_props and optset not in ('props', 'all'):
         expect_note = 'document uses properties with the option off: every route must raise alike'
-    body = ('﻿' + text) if bom else text
+    body = ('﻿' * int(bom) + text) if bom else text          # bom: False, True (one mark) or 2 (two marks: must be treated alike by every route)
     path = os.path.join(tmp, f'{docname}-{int(bom)}.dbml')
     if not os.path.exists(path):
         with open(path, 'w', encoding='utf8', newline='') as f:
@@ -140,6 +140,8 @@ def check_case(p, tmp, docname, text, needs_props, bom, optset):
     for r in range(1, len(ROUTES)):
         if r not in TAKES_OPTIONS and optset != 'default':
             continue
+        if r == 8 and bom == 2:
+            continue        # (that codec removes one mark itself, so a different text would reach the library)
         kind, val = run_route(r, body, path, kw)
         got = describe(kind, val, kw)
         p['evaluations'] += 1
@@ -155,7 +157,7 @@ def check_case(p, tmp, docname, text, needs_props, bom, optset):
         else:
             p['outcomes'][f'{ROUTES[r]}/same'] += 1
     # the BOM must be ignored: with and without BOM the reference route gives the same database
-    if bom:
+    if bom is True:
         k0, v0 = run_route(0, text, path, kw)
         d0 = describe(k0, v0, kw)
         if d0 != ref:
@@ -196,7 +198,7 @@ def work(unit):
     name, text, needs_props = documents()[unit[1]]
     tmp = tempfile.mkdtemp(prefix='verif_c12_')
     try:
-        for bom in (False, True):
+        for bom in (False, True, 2):
             for optset in OPTION_SETS:
                 check_case(p, tmp, name, text, needs_props, bom, optset)
     finally:
